@@ -165,6 +165,9 @@ impl World1 {
     fn comp(&self) -> A {
         self.app.world.get::<A>(self.entity).unwrap().clone()
     }
+    fn comp_opt(&self) -> Option<A> {
+        self.app.world.get::<A>(self.entity).cloned()
+    }
 }
 
 // =============================================================================================
@@ -202,6 +205,13 @@ struct FrameFacts {
 /// operations), `st1,pos1,comp1` after it. Returns facts for labels.
 #[allow(clippy::too_many_arguments)]
 fn judge_animator_frame(tl: Option<&TlInForce>, enabled: bool, delta: Duration, st0: AnimationState, pos0: Duration, comp0: &A, st1: AnimationState, pos1: Duration, comp1: &A) -> Result<FrameFacts, String> {
+    judge_animator_frame_t(tl, enabled, delta, st0, pos0, comp0, st1, pos1, comp1, true)
+}
+
+/// `has_target` = the entity carries the animated component during this frame; without it there is
+/// nothing to evaluate into, but the animator's clock, states and events go on as usual.
+#[allow(clippy::too_many_arguments)]
+fn judge_animator_frame_t(tl: Option<&TlInForce>, enabled: bool, delta: Duration, st0: AnimationState, pos0: Duration, comp0: &A, st1: AnimationState, pos1: Duration, comp1: &A, has_target: bool) -> Result<FrameFacts, String> {
     let mut facts = FrameFacts::default();
     if !enabled {
         if st1 != st0 || pos1 != pos0 || !comp1.same(comp0) {
@@ -290,6 +300,12 @@ fn judge_animator_frame(tl: Option<&TlInForce>, enabled: bool, delta: Duration, 
     if pos1 != want_pos {
         return Err(format!("timeline_position {:?} -> {:?} in a frame of {:?} ending in state {:?}: expected {:?}", pos0, pos1, delta, st1, want_pos));
     }
+    let entered_ended = st1 == AnimationState::Ended && st0 != AnimationState::Ended;
+    facts.entered_ended = entered_ended;
+    facts.skipped_phase = (st0 == AnimationState::Waiting || st0 == AnimationState::None) && st1 == AnimationState::Ended;
+    if !has_target {
+        return Ok(facts);
+    }
     // component
     let eval_matches = |c1: &A| -> bool {
         for t in time_candidates(pos0) {
@@ -301,9 +317,6 @@ fn judge_animator_frame(tl: Option<&TlInForce>, enabled: bool, delta: Duration, 
         }
         false
     };
-    let entered_ended = st1 == AnimationState::Ended && st0 != AnimationState::Ended;
-    facts.entered_ended = entered_ended;
-    facts.skipped_phase = (st0 == AnimationState::Waiting || st0 == AnimationState::None) && st1 == AnimationState::Ended;
     if st0 == AnimationState::Ended {
         if !comp1.same(comp0) {
             return Err(format!("component changed although the animator had already ended: {:?} -> {:?}", comp0, comp1));
@@ -351,6 +364,9 @@ pub enum BOp {
     SetTimeline(bool),
     /// game clock: 0 = pause, 1 = unpause, 2 = half speed, 3 = double speed, 4 = normal speed
     Clock(u8),
+    /// remove (false) / (re-)insert (true) the animated component on the entity: an animator whose
+    /// entity has no target component still keeps time, changes state and announces it
+    Target(bool),
 }
 
 #[derive(Clone, Debug, Serialize, Deserialize)]
@@ -388,6 +404,7 @@ fn c18_strategy() -> impl Strategy<Value = C18Case> {
         1 => Just(BOp::Reset),
         1 => any::<bool>().prop_map(BOp::SetTimeline),
         1 => (0u8..5).prop_map(BOp::Clock),
+        1 => prop::bool::weighted(0.6).prop_map(BOp::Target),
     ];
     (
         desc::tl_strategy_animator(bevy_timing_strategy()),
@@ -401,7 +418,7 @@ fn c18_strategy() -> impl Strategy<Value = C18Case> {
         .prop_map(|(tl, other, with_timeline, start_disabled, start, ops, bystanders)| C18Case { bystanders, tl, other, with_timeline, start_disabled, start, ops })
 }
 
-const C18_LABELS: [&str; 14] = ["reached_ended", "frame_skipped_a_phase", "zero_frame", "disabled_frames", "reset_used", "set_timeline_used", "infinite", "exact_end_decision", "near_band", "playing_evaluated", "delayed", "no_timeline_start", "idle_bystander_first", "clock_paused_or_scaled"];
+const C18_LABELS: [&str; 15] = ["reached_ended", "frame_skipped_a_phase", "zero_frame", "disabled_frames", "reset_used", "set_timeline_used", "infinite", "exact_end_decision", "near_band", "playing_evaluated", "delayed", "no_timeline_start", "idle_bystander_first", "clock_paused_or_scaled", "frame_without_target_component"];
 
 fn c18_judge(c: &C18Case, obs: &mut Obs) -> Result<(), String> {
     let mut app = App::new();
@@ -463,18 +480,32 @@ fn c18_judge(c: &C18Case, obs: &mut Obs) -> Result<(), String> {
                 }
                 obs.label(13);
             }
+            BOp::Target(present) => {
+                if present {
+                    if w.comp_opt().is_none() {
+                        w.app.world.entity_mut(entity).insert(start.clone());
+                    }
+                } else {
+                    w.app.world.entity_mut(entity).remove::<A>();
+                }
+            }
             BOp::Frame(sel) => {
                 let dns = DELTAS_NS[sel as usize % DELTAS_NS.len()];
                 obs.label_if(2, dns == 0);
                 let (st0, pos0, en0) = w.animator_a();
-                let comp0 = w.comp();
+                let has_target = w.comp_opt().is_some();
+                let comp0 = w.comp_opt().unwrap_or_else(|| start.clone());
                 let events = w.frame(dns);
                 // "each frame's delta" is the game clock's delta
                 let delta = w.last_delta();
                 let (st1, pos1, _) = w.animator_a();
-                let comp1 = w.comp();
+                let comp1 = w.comp_opt().unwrap_or_else(|| start.clone());
+                if w.comp_opt().is_some() != has_target {
+                    return Err(format!("op {n}: the animated component was {} by the plugin", if has_target { "removed" } else { "inserted" }));
+                }
                 obs.label_if(3, !en0);
-                let facts = judge_animator_frame(cur.as_ref(), en0, delta, st0, pos0, &comp0, st1, pos1, &comp1).map_err(|e| format!("op {n} frame({dns} ns): {e}"))?;
+                obs.label_if(14, !has_target && en0);
+                let facts = judge_animator_frame_t(cur.as_ref(), en0, delta, st0, pos0, &comp0, st1, pos1, &comp1, has_target).map_err(|e| format!("op {n} frame({dns} ns){}: {e}", if has_target { "" } else { " [entity without the animated component]" }))?;
                 // bystanders: idle ones never change, the running one keeps running
                 for e in &idle {
                     let a = w.app.world.get::<Animator<A>>(*e).unwrap();
@@ -527,16 +558,16 @@ fn c18_judge(c: &C18Case, obs: &mut Obs) -> Result<(), String> {
 fn c18(run: &mut Run) {
     run.assume("single-threaded executor, one App per case, Time advanced by hand (no TimePlugin); exact domain for the Ended/Waiting decisions when the position is a multiple of 2^-9 s representable in f32 and the total duration is representable, a band of 2(ulp(limit)+ulp(pos)) otherwise");
     run.assume("in a frame that the animator does not enter as Playing and does not end, the component may either stay as it is or be evaluated at the frame's start position (the property does not say)");
-    let cases = run.tier.pick(20_000, 2_000_000);
+    let cases = run.tier.pick(50_000, 2_000_000);
     run.prop(
         "c18_schedule",
-        "proptest: timeline timing (delay 0/>0 incl. longer than any frame, repeat none/n/infinite, reverse) x start value x schedule <=40 of Frame(0, 1/512, 1/8, 1/2, 3, 100 s, 16.67 ms, 1 ns, ...)/Enable/Disable/Reset/SetTimeline in a fresh Bevy App; per-frame oracle: allowed states from the position at frame start, time conservation, component == timeline(pos0) when Playing or newly Ended (terminal values), disabled = frozen, exactly one event per state change carrying the final state; non-trivial = reaches Ended and has a phase-skipping or zero-length frame",
+        "proptest: timeline timing (delay 0/>0 incl. longer than any frame, repeat none/n/infinite, reverse) x start value x schedule <=40 of Frame(0, 1/512, 1/8, 1/2, 3, 100 s, 16.67 ms, 1 ns, ...)/Enable/Disable/Reset/SetTimeline/game-clock pause+speed/remove+re-insert the target component in a fresh Bevy App; per-frame oracle: allowed states from the position at frame start, time conservation, component == timeline(pos0) when Playing or newly Ended (terminal values), disabled = frozen, exactly one event per state change carrying the final state; non-trivial = reaches Ended and has a phase-skipping or zero-length frame",
         &C18_LABELS,
         c18_strategy(),
         cases,
         c18_judge,
     );
-    for (l, f) in [("reached_ended", 0.3), ("frame_skipped_a_phase", 0.05), ("zero_frame", 0.5), ("disabled_frames", 0.1), ("reset_used", 0.2), ("infinite", 0.1), ("exact_end_decision", 0.3), ("playing_evaluated", 0.5)] {
+    for (l, f) in [("reached_ended", 0.3), ("frame_skipped_a_phase", 0.05), ("zero_frame", 0.5), ("disabled_frames", 0.1), ("reset_used", 0.2), ("infinite", 0.1), ("exact_end_decision", 0.3), ("playing_evaluated", 0.4), ("frame_without_target_component", 0.1)] {
         run.require_label("c18_schedule", l, f);
     }
 }
@@ -805,7 +836,7 @@ fn c19_judge(c: &C19Case, obs: &mut Obs) -> Result<(), String> {
 fn c19(run: &mut Run) {
     run.assume("the relative order of chain_animations and select_animation is unspecified but fixed per App: the model is run under both orders and a violation is reported only when neither explains the observations");
     run.assume("self-loop chain entries k->k are not generated (the statement speaks of moving to another key)");
-    let cases = run.tier.pick(20_000, 2_000_000);
+    let cases = run.tier.pick(50_000, 2_000_000);
     run.prop(
         "c19_selector_chain",
         "proptest: 3 keyed timelines + 1 key without timeline, optional chain (0-3 entries, cycles allowed), optional second component type B with its own animator, schedule <=40 of Frame(delta)/SetKey (incl. re-assigning the current key and assignments right after an end); oracle: key after every frame per the chain rule, restart blended from the current values without a jump, no-timeline key stops animation, then the C18 per-frame animator rule; non-trivial = key change mid-flight and (for chain cases) a chain firing",
